@@ -8,6 +8,7 @@ process only) by a recording subclass, so the exact octets fed to HMAC are logge
 driver additionally computes HMAC over those octets with the standard library.  For
 genuine messages every single bit of the wire is flipped and re-delivered.
 No verdicts here: Trace_Tsig judges."""
+import base64
 import hashlib
 import hmac as std_hmac
 import struct
@@ -21,6 +22,7 @@ import dns.rdatatype
 import dns.renderer
 import dns.rrset
 import dns.tsig
+import dns.tsigkeyring
 
 # ----------------------------------------------------------------------------- clock
 
@@ -307,10 +309,14 @@ def make_ring(form, name, secret, alg):
         return key
     # dict / callable keyrings also hold an unrelated second key (lookup must be by owner name)
     extra = dns.tsig.Key("zz-unrelated.", WRONG_SECRET, alg)
+    # the two dict forms are built by dns.tsigkeyring.from_text from base64 text, as applications do
+    b64 = base64.b64encode(secret).decode()
+    xb64 = base64.b64encode(extra.secret).decode()
     if form == "dictkey":
-        return {extra.name: extra, key.name: key}
+        at = key.algorithm.to_text()
+        return dns.tsigkeyring.from_text({"zz-unrelated.": (at, xb64), key.name.to_text(): (at, b64)})
     if form == "dictbytes":
-        return {extra.name: extra.secret, key.name: secret}
+        return dns.tsigkeyring.from_text({"zz-unrelated.": xb64, key.name.to_text(): b64})
     d = {extra.name: extra, key.name: key}
     return lambda msg, kn: d.get(kn)
 
